@@ -815,7 +815,9 @@ impl<const MIN_ALIGN: usize> Bump<MIN_ALIGN> {
         self.allocation_limit.get().and_then(|allocation_limit| {
             let allocated_bytes = self.allocated_bytes();
             if allocated_bytes > allocation_limit {
-                None
+                // Already over the limit (e.g. the limit was lowered below
+                // what the arena holds): there is no headroom left at all.
+                Some(0)
             } else {
                 Some(usize::abs_diff(allocation_limit, allocated_bytes))
             }
